@@ -311,6 +311,17 @@ func runC03(c *Ctx) {
 				name := c.P.FuncName(ir.Outermost(f))
 				switch name {
 				case c.P.FuncName(core.Teardown):
+					// the cause reported is this close call's own argument, stored unconditionally
+					// before the notification (the UDP read path parks routine errnos in the field)
+					tfi := c.P.Info(f)
+					if _, isParam := ir.Resolve(st.Val).(*ssa.Parameter); !isParam {
+						bad = "teardown stores " + c.P.Desc(st.Val) + " into closeErr, not the error it was called with"
+					}
+					for _, cs := range c.P.CallsNamed(f, "(*nbio.poller).deleteConn") {
+						if !tfi.Dominates(st, cs.In) {
+							bad = "teardown reaches the close notification at " + c.Pos(cs.In) + " on a path that does not store its own error into closeErr (the store at " + c.Pos(st) + " is conditional): a routine errno parked there by the UDP read path is reported as the close cause"
+						}
+					}
 				case "(*nbio.Conn).readUDP":
 					fi := c.P.Info(f)
 					if !fi.HasFact(st, func(ft ir.Fact) bool {
